@@ -1,4 +1,5 @@
 import Invoke.Lemmas.ConfigReach
+import Invoke.Lemmas.ConfigInto
 /-! # C11 — clones are faithful and independent; supplied data is never mutated
 
 Property theorems only.  The model (`Model/Config.lean`) is pure: a configuration IS its ten data
@@ -92,6 +93,29 @@ theorem clone_into_keeps_original_defaults :
     · simp [Cfg.viewT, Cfg.baseT, Cfg.lower, viewT, mergeLevelsT, mergeT_cons, mergeVal, obl_cons, oblStep, Inv.insert, lookup, erase, node]
     · simp [Cfg.viewT, Cfg.baseT, Cfg.lower, viewT, mergeLevelsT, mergeT_cons, mergeVal, obl_cons, oblStep, Inv.insert, lookup, erase, node]
 
+/-- GENERAL FORM.  `clone(into=Subclass)` of any type-consistent configuration, for subclass defaults
+    type-consistent with it: (1) every key path the original's view defines - leaf or section, from
+    whatever level, modifications included - reads THE SAME in the clone (the original wins); (2) a
+    path the original does not define and that is not under a deletion mark reads what the subclass's
+    global defaults say (only such paths become visible); (3) deleted paths stay absent. -/
+theorem clone_into_original_wins (c : Cfg) (into : KVs) (hc : TypeOK c) (hci : Compat into c.defaults)
+    (hk : TypeOK (intoCfg c into)) :
+    ∃ k, c.clone into = .ok k ∧
+      (∀ p x, node p c.viewT = some x → node p k.viewT = some x) ∧
+      (∀ p, node p c.viewT = none → marked c.dels p = false → node p k.viewT = node p into) ∧
+      (∀ p, marked c.dels p = true → node p k.viewT = none) := by
+  refine ⟨intoCfg c into, cloneWith_into _ generated_clone_slots_complete c into hc hk hci, ?_, ?_, ?_⟩
+  · intro p x hx
+    have hm : marked c.dels p = false := by
+      cases hmk : marked c.dels p with
+      | false => rfl
+      | true => rw [node_cfg_viewT c hc, hmk] at hx; simp at hx
+    rw [node_into_viewT c into hc hk hci, hm, hx]; simp
+  · intro p hn hm
+    rw [node_into_viewT c into hc hk hci, hm, hn]; simp
+  · intro p hm
+    rw [node_into_viewT c into hc hk hci, hm]; simp
+
 /-! Non-vacuity: a type-consistent configuration with a modification and a deletion mark, and its clone. -/
 
 /-- `defaults = {a: {b: 1, c: 2}}`, after `c.a.z = 9` and `del c.a.b` -/
@@ -110,5 +134,19 @@ example : ∃ k, c11Witness.clone = .ok k ∧
   refine ⟨_, clone_slots_eq _ c11Witness_typeOK, ?_, ?_, ?_⟩ <;>
   simp [c11Witness, Cfg.viewT, Cfg.baseT, Cfg.lower, viewT, mergeLevelsT, mergeT_cons, mergeVal, obl_cons, oblStep,
     Inv.insert, lookup, erase, node]
+
+/-- the hypotheses of `clone_into_original_wins` are satisfiable: the witness cloned into a class whose
+    global defaults are `{a: {b: 0, n: 5}, q: 1}` -/
+def c11Into : KVs := [(['a'], .dict [(['b'], .leaf (.i 0)), (['n'], .leaf (.i 5))]), (['q'], .leaf (.i 1))]
+
+example : TypeOK c11Witness ∧ Compat c11Into c11Witness.defaults ∧ TypeOK (intoCfg c11Witness c11Into) := by
+  refine ⟨c11Witness_typeOK, compatB_sound _ _ (by decide), ?_⟩
+  have e : mergeT c11Into c11Witness.defaults =
+      [(['a'], .dict [(['b'], .leaf (.i 1)), (['n'], .leaf (.i 5)), (['c'], .leaf (.i 2))]), (['q'], .leaf (.i 1))] := by
+    simp [c11Into, c11Witness, mergeT_cons, mergeVal, Inv.insert, lookup]
+  unfold intoCfg
+  rw [e]
+  exact typeOK_simple (wfB_sound _ (by decide)) (wfB_sound _ (by decide)) (wfB_sound _ (by decide))
+    (compatB_sound _ _ (by decide))
 
 end Inv
